@@ -383,6 +383,29 @@ func (s *Sim) evmScenario(hs *EvmStats) error {
 				_, _ = s.node.App.VerifEVMCtrler().VerifCallVM(s.users[0].Addr, c[:], word([]byte{5}), h, 1_700_000_000)
 			})
 			hs.ReadOnlyCalls++
+			// ... and must not be visible to the next read-only call at the same height either: every
+			// contract is called twice with the same input; answers, gas and errors must be identical
+			for _, c2 := range contracts {
+				var r1, r2 string
+				for k, dst := range []*string{&r1, &r2} {
+					_ = k
+					perr := guard(func() {
+						res, xerr := s.node.App.VerifEVMCtrler().VerifCallVM(s.users[1%len(s.users)].Addr, c2[:], word([]byte{7}), h, 1_700_000_000)
+						if xerr != nil {
+							*dst = "xerr:" + xerr.Error()
+						} else if res != nil {
+							*dst = fmt.Sprintf("ret=%x gas=%d err=%v", res.ReturnData, res.UsedGas, res.Err)
+						}
+					})
+					if perr != nil {
+						*dst = "panic:" + perr.Error()
+					}
+					hs.ReadOnlyCalls++
+				}
+				if r1 != r2 {
+					hs.Mismatches = append(hs.Mismatches, fmt.Sprintf("seed %d block %d (read-only-call-repeated): the same read-only call at height %d answered %q and then %q", s.H.Seed, h, h, r1, r2))
+				}
+			}
 			rootAfter, _ := s.node.App.VerifEVMCtrler().VerifLastRoot()
 			s.refreshShadow()
 			if !bytes.Equal(rootBefore, rootAfter) || balBefore != s.balOf(s.users[0].Addr).String() {
